@@ -13,7 +13,8 @@ RECORDS = {}        # class name -> {field: type string}
 
 
 class LoopSpec(object):
-    def __init__(self, header, invariants, decreases=None, modifies=None, ghost=None, body_facts=()):
+    def __init__(self, header, invariants, decreases=None, modifies=None, ghost=None, body_facts=(), types=None):
+        self.types = dict(types or {})
         self.body_facts = _named(body_facts, 'fact')
         self.header = header            # fingerprint: ast.unparse of iter/test
         self.invariants = _named(invariants, 'inv')
